@@ -24,6 +24,7 @@ import (
 
 type metaVal struct {
 	isList bool
+	other  bool // number / bool / object: no string matcher matches it
 	s      string
 	l      []string
 }
@@ -105,8 +106,10 @@ func parseReq(toks []string) *request {
 			if mv[i] != "" {
 				e.val.l = strings.Split(mv[i], "|")
 			}
-		} else {
+		} else if mt[i] == "s" {
 			e.val.s = mv[i]
+		} else {
+			e.val.other = true // n = number, b = bool
 		}
 		r.meta = append(r.meta, e)
 	}
@@ -268,7 +271,7 @@ func evalMeta(m *matcherpb.MetadataMatcher, r *request) bool {
 func evalVal(v *matcherpb.ValueMatcher, x metaVal) bool {
 	switch p := v.GetMatchPattern().(type) {
 	case *matcherpb.ValueMatcher_StringMatch:
-		return !x.isList && evalStr(p.StringMatch, x.s)
+		return !x.isList && !x.other && evalStr(p.StringMatch, x.s)
 	case *matcherpb.ValueMatcher_OrMatch:
 		for _, o := range p.OrMatch.GetValueMatchers() {
 			if evalVal(o, x) {
@@ -277,7 +280,7 @@ func evalVal(v *matcherpb.ValueMatcher, x metaVal) bool {
 		}
 		return false
 	case *matcherpb.ValueMatcher_ListMatch:
-		if !x.isList {
+		if !x.isList || x.other {
 			return false
 		}
 		for _, e := range x.l {
